@@ -30,6 +30,11 @@ Definition step_model_ok (p p' : list ltable) (s : stepobs) : bool :=
       | OkUnit, Some d => table_eqb (abs t) (abs d)
       | _, _ => false
       end
+  | LErrUpd i t =>
+      match so_out s, nth_error p' i with
+      | Err _, Some d => table_eqb (abs t) (abs d)
+      | _, _ => false
+      end
   end.
 
 Fixpoint model_steps (p : list ltable) (steps : list stepobs) : bool :=
